@@ -34,7 +34,7 @@ Theorem no_stale_result : forall scripts sched t th r o,
   nth_error (tscript th) (rop r) = Some o -> ogrp o <> GLC ->
   let c := heap s (rcid r) in
   cgrp c = ogrp o /\ ckey c = okey o /\ cdone c = true /\
-  cval c = Some (rval r, rerr r) /\
+  cval c = Some (shared (rval r, rerr r)) /\
   rinv r <= rjoin r /\ rjoin r < rret r /\
   ((rfresh r = true /\ clead c = (t, rop r) /\ cinvt c = rinv r /\ cret c = Some (rret r)) \/
    (rfresh r = false /\ fst (clead c) <> t /\ cinvt c <= rjoin r /\
@@ -50,7 +50,7 @@ Theorem execution_value_is_the_leaders : forall scripts sched c,
   exists thL oL, nth_error (threads s) (fst (clead (heap s c))) = Some thL /\
                  nth_error (tscript thL) (snd (clead (heap s c))) = Some oL /\
                  ogrp oL = cgrp (heap s c) /\ okey oL = ckey (heap s c) /\
-                 forall r, cval (heap s c) = Some r -> r = (oval oL, oerr oL).
+                 forall r, cval (heap s c) = Some r -> r = shared (fn_ret oL).
 Proof. exact execution_value_l. Qed.
 Print Assumptions execution_value_is_the_leaders.
 
@@ -96,7 +96,7 @@ Theorem locked_calls_exclusive_and_own : forall scripts sched,
   let s := exec scripts sched in
   nth_error (threads s) t = Some th -> In r (tres th) ->
   nth_error (tscript th) (rop r) = Some o -> ogrp o = GLC ->
-  rval r = oval o /\ rerr r = oerr o /\ rruns r = 1.
+  (rval r, rerr r) = fn_ret o /\ rruns r = 1.
 Proof.
   exact (fun scripts sched =>
            conj (fun k => one_execution_per_key_l scripts sched GLC k)
